@@ -10,18 +10,19 @@ Import ListNotations.
 Definition var_ivs (v : var) : list (nat * bool) := if is_cf v then vi v else [].
 
 Section CfSem.
+  Context {D : Type} {eqD : EqB D}.
   Variable U : Type.
-  Variable f : nat -> (nat -> bool) -> U -> bool.
-  Variable rho : nat -> bool.
+  Variable f : nat -> (nat -> D) -> U -> D.
+  Variable rho : nat * bool -> D.
   Variable order : list nat.       (* a topological order of the graph: the solution of every submodel is computed along it (Proofs/ScmP.v) *)
 
-  Definition value (v : var) (u : U) : bool := solve U f rho order (var_ivs v) u (vn v).
+  Definition value (v : var) (u : U) : D := solve U f rho order (var_ivs v) u (vn v).
 
-  Definition entry_true (u : U) (p : var * (nat * bool)) : bool := Bool.eqb (value (fst p) u) (lit rho (snd p)).
+  Definition entry_true (u : U) (p : var * (nat * bool)) : bool := eqb (value (fst p) u) (lit rho (snd p)).
   Definition event_true (ev : event) (u : U) : bool := forallb (entry_true u) ev.
 
   (* events of the counterfactual-transport code: a conjunct may come without a value (it then constrains nothing) *)
   Definition centry_true (u : U) (p : var * option (nat * bool)) : bool :=
-    match snd p with Some x => Bool.eqb (value (fst p) u) (lit rho x) | None => true end.
+    match snd p with Some x => eqb (value (fst p) u) (lit rho x) | None => true end.
   Definition cevent_true (ev : cevent) (u : U) : bool := forallb (centry_true u) ev.
 End CfSem.
